@@ -33,7 +33,9 @@ type c11Scen struct {
 }
 
 var c11Roots = []string{"/a", "/b", "/a/{v}", "/", "/a/", "/a/b", "/ab", "/{v}", "/a/{v}/x", "/a/{v}/y", "/users/{id}/a", "/users/{id}/b"}
-var c11Subs = []string{"/x", "/{id}", "", "/x/{id}", "/y", "/{id}:go"}
+
+// the last one: below root /a its relative path is the full path of another route (/a/x)
+var c11Subs = []string{"/x", "/{id}", "", "/x/{id}", "/y", "/{id}:go", "/a/x"}
 var c11Plain = []string{"/static/", "/h", "/h2/"}
 
 func genC11(x *Ctx) *c11Scen {
@@ -41,6 +43,7 @@ func genC11(x *Ctx) *c11Scen {
 	sc := &c11Scen{}
 	sc.Router = []string{"curly", "jsr311"}[tp.G(2)]
 	sc.Filters = tp.G(2)
+	sc.NoTrim = tp.Chance(120)
 	perm := tp.Perm(len(c11Roots))
 	rid := 0
 	maxSvcs, moreSvcs := 5, 600
@@ -59,6 +62,12 @@ func genC11(x *Ctx) *c11Scen {
 				r.Method = []string{"purge", "Report"}[tp.G(2)]
 			}
 			sp.Routes = append(sp.Routes, r)
+			if !sc.NoTrim && r.Path != "" && !strings.HasSuffix(r.Path, ":go") && tp.Chance(60) {
+				// the same method on the same path with a trailing slash: another route (RemoveRoute takes one)
+				rid++
+				sp.Routes = append(sp.Routes, RouteSpec{ID: rid, Method: r.Method, Path: r.Path + "/", SlashTwin: true})
+				return
+			}
 			if tp.Chance(150) {
 				// the same method and path again with another representation: legal, and one RemoveRoute
 				// call removes both
@@ -163,7 +172,6 @@ func genC11(x *Ctx) *c11Scen {
 		ops = append(ops, b)
 		sc.Ops = append(ops, sc.Ops[at:]...)
 	}
-	sc.NoTrim = tp.Chance(120)
 	if tp.Chance(80) {
 		sc.Options = true
 		sc.EveryPrefix = true // the same OPTIONS request before and after a route change
